@@ -87,8 +87,8 @@ def body_of(decl):
     return None
 
 def strip_casts(n):
-    while n.get("kind") in ("ImplicitCastExpr", "ParenExpr", "MaterializeTemporaryExpr", "ExprWithCleanups", "CXXBindTemporaryExpr", "CXXFunctionalCastExpr", "CStyleCastExpr") and n.get("inner"):
-        n = n["inner"][0]
+    while n.get("kind") in ("ImplicitCastExpr", "ParenExpr", "MaterializeTemporaryExpr", "ExprWithCleanups", "CXXBindTemporaryExpr", "CXXFunctionalCastExpr", "CStyleCastExpr", "SubstNonTypeTemplateParmExpr", "ConstantExpr") and n.get("inner"):
+        n = n["inner"][-1] if n.get("kind") == "SubstNonTypeTemplateParmExpr" else n["inner"][0]
     return n
 
 # ----------------------------------------------------------------------------- store
@@ -149,6 +149,12 @@ class Store:
             ctype = ft
 
 # ----------------------------------------------------------------------------- function translation
+def okind(cls, method, ctypes):
+    """discriminator for the one overload set we translate: Projective::add(Projective) / add(Affine)"""
+    if cls and cls.startswith("Projective") and method in ("add",) and any(t and t.startswith("Affine") for t in ctypes):
+        return "A"
+    return ""
+
 class Sig:
     def __init__(self, cls, name, params, ret, is_method, decl, const_method=False):
         self.cls = cls; self.name = name; self.params = params; self.ret = ret; self.is_method = is_method
@@ -232,6 +238,10 @@ class FnTranslator:
         l = self.loc(n)
         if l[0] == "const": return l[1]
         return self.store.read(l[1], l[2])
+
+    def safe_ctype(self, n):
+        try: return self.ctype_of(n)
+        except TranslateError: return None
 
     def ctype_of(self, n):
         l = self.loc(n)
@@ -350,7 +360,8 @@ class FnTranslator:
             self.assign(rl, expr, method); return
         if method == "copy":
             self.assign(rl, self.value(args[0]), "copy"); return
-        sig = self.u.sig(rct, method, len(args))
+        kind = okind(rct, method, [self.safe_ctype(a) for a in args])
+        sig = self.u.sig(rct, method, len(args), kind)
         # alias pattern at this call site
         arglocs = []
         for a, p in zip(args, sig.params):
@@ -370,7 +381,7 @@ class FnTranslator:
             if arglocs[i] is None or arglocs[j] is None: continue
             if (pi["restrict"] or pj["restrict"]) and self.overlap(arglocs[i], arglocs[j]):
                 raise TranslateError("aliased __restrict arguments in call to %s::%s" % (rct, method))
-        name = self.u.need(rct, method, tuple(aliased), nargs=len(args))
+        name = self.u.need(rct, method, tuple(aliased), nargs=len(args), kind=kind)
         self.calls.append(name)
         argv = []
         seen_alias = False
@@ -439,17 +450,53 @@ class FnTranslator:
                     self.lines.append("if %s then" % cond)
                     self.lines += ["  " + l for l in tlines] + ["  " + tret]
                     self.lines.append("else")
-                    self.lines += ["  " + l for l in elines] + ["  " + eret]
-                    self.final = None   # already emitted
+                    self.lines += ["  " + l for l in elines] + (["  " + eret] if eret is not None else [])
+                    self.final = None; self.done_final = True   # already emitted
                     return
+                if els is not None and not returns:
+                    # if/else, neither branch returns: run both on copies of the store, merge the roots that changed
+                    els_body = els["inner"] if els.get("kind") == "CompoundStmt" else [els]
+                    base_store = self.store.clone(); saved_lines = self.lines; saved_alias = dict(self.refalias)
+                    self.lines = []; self.stmts_nofinal(then_body); tstore = self.store; tlines = self.lines
+                    self.store = base_store.clone(); self.refalias = dict(saved_alias)
+                    self.lines = []; self.stmts_nofinal(els_body); estore = self.store; elines = self.lines
+                    self.lines = saved_lines; self.refalias = saved_alias
+                    changed = [r for r in tstore.roots if json.dumps(tstore.roots[r]) != json.dumps(base_store.roots.get(r)) or json.dumps(estore.roots[r]) != json.dumps(base_store.roots.get(r))]
+                    if not changed:
+                        self.store = base_store; continue
+                    tv = [tstore.read(r, ()) for r in changed]; ev = [estore.read(r, ()) for r in changed]
+                    names = [self.fresh(("out" if r == "this" else r) + "_m") for r in changed]
+                    pat = names[0] if len(names) == 1 else "(" + ", ".join(names) + ")"
+                    tup = lambda vs: vs[0] if len(vs) == 1 else "(" + ", ".join(vs) + ")"
+                    self.lines.append("let %s :=" % pat)
+                    self.lines.append("  if %s then" % cond)
+                    self.lines += ["    " + l for l in tlines] + ["    " + tup(tv)]
+                    self.lines.append("  else")
+                    self.lines += ["    " + l for l in elines] + ["    " + tup(ev)]
+                    self.store = base_store
+                    for r, nme in zip(changed, names): self.store.write(r, (), nme)
+                    continue
                 raise TranslateError("unsupported if-statement shape in %s" % self.lean_name)
+            elif k == "BinaryOperator" and s.get("opcode") == "=":
+                lhs = self.loc(s["inner"][0]); ct = self.ctype_of(s["inner"][0])
+                if ct == "bool": self.assign(lhs, self.boolexpr(s["inner"][1]), "flag")
+                elif ct == "uint": self.assign(lhs, self.intexpr(s["inner"][1]), "n")
+                else: self.assign(lhs, self.value(s["inner"][1]), "v")
             elif k == "ReturnStmt":
                 self.final = self.ret_expr(s); return
             elif k == "NullStmt":
                 pass
             else:
                 raise TranslateError("unsupported statement %s in %s" % (k, self.lean_name))
-        self.final = self.ret_expr(None)
+        try:
+            self.final = self.ret_expr(None)
+        except TranslateError:
+            self.final = None
+
+    def stmts_nofinal(self, body):
+        saved = getattr(self, "final", None)
+        self.stmts(body, None)
+        self.final = saved
 
     def decl(self, d):
         if d.get("kind") != "VarDecl": raise TranslateError("unsupported declaration %s" % d.get("kind"))
@@ -508,7 +555,8 @@ class FnTranslator:
         self.final = None
         body = body_of(sig.decl)
         self.stmts(body.get("inner", []), None)
-        if self.final is not None:
+        if not getattr(self, "done_final", False):
+            if self.final is None: self.final = self.ret_expr(None)
             self.lines.append(self.final)
         # return type
         if sig.ret == "bool": rty = "Bool"
@@ -547,7 +595,8 @@ class Unit:
                 pid = o.get("parentDeclContextId")
                 owner = self.ctx.get(pid) if hasattr(self, "ctx") else None
             if owner is None: return
-            key = (owner, o["name"], len([c for c in o.get("inner", []) if c.get("kind") == "ParmVarDecl"]))
+            pts = [norm_type(c["type"]["qualType"]) for c in o.get("inner", []) if c.get("kind") == "ParmVarDecl"]
+            key = (owner, o["name"], len(pts), okind(owner, o["name"], pts))
             if body_of(o) is not None or key not in self.decls:
                 self.decls[key] = (o, "const" in o["type"]["qualType"].split(")")[-1])
             return
@@ -569,8 +618,8 @@ class Unit:
                 if b in ("Fq", "Fq2"): self.ctx[o["id"]] = "%s<%s>" % (o["name"], b)
         for ch in o.get("inner", []): self.index_ctx(ch, cls)
 
-    def sig(self, cls, method, nargs):
-        key = (cls, method, nargs)
+    def sig(self, cls, method, nargs, kind=""):
+        key = (cls, method, nargs, kind)
         if key not in self.decls:
             raise TranslateError("no definition found for %s::%s/%d" % (cls, method, nargs))
         decl, is_const = self.decls[key]
@@ -585,17 +634,17 @@ class Unit:
     def free_out_only(self, fname, pname):
         return (fname, pname) in self.out_only
 
-    def lean_name(self, cls, method, alias):
-        n = "%s.%s" % (LEAN_NS[cls], method)
+    def lean_name(self, cls, method, alias, kind=""):
+        n = "%s.%s%s" % (LEAN_NS[cls], method, kind)
         if alias: n += "_o" + "".join(alias)
         return n
-    def need(self, cls, method, alias=(), nargs=None):
+    def need(self, cls, method, alias=(), nargs=None, kind=""):
         if nargs is None:
-            cands = [k for k in self.decls if k[0] == cls and k[1] == method]
+            cands = [k for k in self.decls if k[0] == cls and k[1] == method and k[3] == kind]
             if not cands: raise TranslateError("no definition found for %s::%s" % (cls, method))
             nargs = cands[0][2]
-        name = self.lean_name(cls, method, alias)
-        key = ("m", cls, method, nargs, tuple(alias))
+        name = self.lean_name(cls, method, alias, kind)
+        key = ("m", cls, method, nargs, tuple(alias), kind)
         if key not in self.done and key not in self.pending:
             self.pending.append(key); self.translate(key)
         return name
@@ -606,9 +655,9 @@ class Unit:
         return fname
     def translate(self, key):
         if key[0] == "m":
-            _, cls, method, nargs, alias = key
-            sig = self.sig(cls, method, nargs)
-            t = FnTranslator(self, sig, alias, self.lean_name(cls, method, alias)).run()
+            _, cls, method, nargs, alias, kind = key
+            sig = self.sig(cls, method, nargs, kind)
+            t = FnTranslator(self, sig, alias, self.lean_name(cls, method, alias, kind)).run()
         else:
             sig = self.free_sig(key[1])
             t = FnTranslator(self, sig, (), key[1]).run()
@@ -620,19 +669,19 @@ class Unit:
         cands = [k for k in self.decls if k[0] == cls and k[1] == method]
         if not cands: raise TranslateError("no definition found for %s::%s" % (cls, method))
         names = []
-        for (_, _, nargs) in cands:
-            sig = self.sig(cls, method, nargs)
+        for (_, _, nargs, kind) in sorted(cands, key=lambda k: (k[2], k[3])):
+            sig = self.sig(cls, method, nargs, kind)
             al = sig.aliasable()
             for r in range(0, len(al) + 1):
                 for sub in itertools.combinations(al, r):
                     try:
-                        names.append((self.need(cls, method, sub, nargs), sub, al, None))
+                        names.append((self.need(cls, method, sub, nargs, kind), sub, al, None))
                     except TranslateError as e:
                         # the variant cannot be given a meaning (e.g. the aliasing makes a callee's
                         # __restrict contract false): recorded, reported by the C18 check
                         self.pending = [k for k in self.pending if k in self.done]
                         if not sub: raise
-                        names.append((self.lean_name(cls, method, sub), sub, al, str(e)))
+                        names.append((self.lean_name(cls, method, sub, kind), sub, al, str(e)))
         return names
 
     def classes_closure(self):
@@ -795,6 +844,60 @@ def gen_tower(repo, outdir):
         json.dump(recs, f, indent=1)
     return u, table, changed
 
+FORCE_TU = """#include "bls12_381/curve.hpp"
+#include "bls12_381/pairing.hpp"
+namespace embedded_pairing::bls12_381 {
+    template struct Projective<Fq>;
+    template struct Projective<Fq2>;
+    template struct Affine<Fq, Fr, g1_b_coeff_var>;
+    template struct Affine<Fq2, Fr, g2_b_coeff_var>;
+    void jedi_verif_force(G1& a, const G1Affine& b, G2& c, const G2Affine& d) { a.add(a, b); a.from_affine(b); c.add(c, d); c.from_affine(d); }
+}
+"""
+
+def gen_curve(repo, outdir):
+    import tempfile, shutil
+    tmp = tempfile.mkdtemp(prefix="jedi_cxx2lean_")
+    try:
+        src = os.path.join(tmp, "force.cpp")
+        with open(src, "w") as f: f.write(FORCE_TU)
+        u = Unit(repo)
+        objs = []
+        for filt in (NS + "Projective", NS + "Affine"):
+            cmd = ["clang++-14", "-std=gnu++17", "-I", os.path.join(repo, "include"), "-fsyntax-only", "-Xclang", "-ast-dump=json",
+                   "-Xclang", "-ast-dump-filter=" + filt, src]
+            r = subprocess.run(cmd, capture_output=True, text=True)
+            if r.returncode != 0: raise TranslateError("clang failed on curve.hpp: " + r.stderr[:2000])
+            txt = r.stdout; dec = json.JSONDecoder(); i = 0
+            while i < len(txt):
+                while i < len(txt) and txt[i] in " \n\r\t": i += 1
+                if i >= len(txt): break
+                o, j = dec.raw_decode(txt, i); objs.append(o); i = j
+        # the tower is needed for the Fq2 instantiation's callees
+        for (s_, filt) in (("src/bls12_381/fq2.cpp", NS + "Fq2"),):
+            objs += load_ast(repo, s_, filt)
+    finally:
+        shutil.rmtree(tmp, ignore_errors=True)
+    for o in objs: u.index_ctx(o)
+    for o in objs: u.index(o)
+    table = []
+    plan = {}
+    for base in ("Fq", "Fq2"):
+        plan["Projective<%s>" % base] = ["is_zero", "is_normalized", "equal", "multiply2", "add", "negate", "from_affine"]
+        plan["Affine<%s>" % base] = ["is_zero", "negate", "from_projective", "is_on_curve", "equal"]
+    for cls, methods in plan.items():
+        for m in methods:
+            for (name, sub, al, err) in u.all_variants(cls, m):
+                table.append((name, sub, al, cls, m, err))
+    # keep only curve-level functions in this file; tower callees live in TowerGen
+    keep = [k for k in u.order if k[0] == "m" and (k[1].startswith("Projective") or k[1].startswith("Affine"))]
+    u.order = keep
+    text = HEADER % ("curve.hpp, both instantiations", "import JediVerif.Gen.TowerGen") + u.emit() + "\nend Jedi.Gen\n"
+    changed = write_if_changed(os.path.join(outdir, "CurveGen.lean"), text)
+    recs = [{"name": "Jedi.Gen." + t[0], "class": t[3], "method": t[4], "alias": list(t[1]), "untranslatable": t[5]} for t in table]
+    with open(os.path.join(outdir, "curve_functions.json"), "w") as f: json.dump(recs, f, indent=1)
+    return u, table, changed
+
 if __name__ == "__main__":
     repo = sys.argv[1] if len(sys.argv) > 1 else "/repo"
     outdir = sys.argv[2] if len(sys.argv) > 2 else os.path.join(VERIF, "lean/JediVerif/Gen")
@@ -803,5 +906,11 @@ if __name__ == "__main__":
     except TranslateError as e:
         print("cxx2lean: TRANSLATION FAILED:", e); sys.exit(2)
     print("cxx2lean: %d functions (%d variants listed) -> %s/TowerGen.lean%s" % (len(u.done), len(table), outdir, "" if changed else " (unchanged)"))
+    try:
+        u2, table2, changed2 = gen_curve(repo, outdir)
+    except TranslateError as e:
+        print("cxx2lean: TRANSLATION FAILED (curve):", e); sys.exit(2)
+    print("cxx2lean: curve: %d functions -> %s/CurveGen.lean%s" % (len(u2.order), outdir, "" if changed2 else " (unchanged)"))
+    table = table + table2
     for t in table:
         if t[5]: sys.stdout.write("cxx2lean: UNTRANSLATABLE-VARIANT %s: %s\n" % (t[0], t[5]))
